@@ -148,3 +148,11 @@ package convert
 //@   mode bv
 //@   ensures len(b) > 0 ==> result == (b[0] != 0)
 //@   ensures len(b) == 0 ==> !result
+//
+// ---- hashing (xxhash is external): a deterministic function of the bytes, nothing else is assumed ----
+//@ decl func hashOf(b []byte) uint64
+//@ func Hash
+//@   property C16
+//@   assumed wrapper around github.com/cespare/xxhash: a deterministic, side-effect free function of the key bytes
+//@   pure
+//@   ensures result == hashOf(key[:])
